@@ -1011,6 +1011,78 @@ theorem foldl_max_ge : ∀ (ts : List Nat) (m : Nat), m ≤ ts.foldl max m ∧ (
         · rw [Nat.max_eq_left (Nat.le_of_not_le h)]; exact Or.inl rfl
       · exact Or.inr (List.mem_cons_of_mem _ h3)
 
+/-! ### the repaired selection: `max(files, key = parsed time)` -/
+
+/-- `seen = pre ++ f :: post`, `f` has time `T`, everything before it is strictly earlier, everything after it is not later:
+`f` is the first element of `seen` with maximal time -/
+def FirstMax (seen : List (List Nat)) (f : List Nat) (T : Nat) : Prop :=
+  ∃ pre post, seen = pre ++ f :: post ∧ parseTime f = some T
+    ∧ (∀ g ∈ pre, ∃ s, parseTime g = some s ∧ s < T) ∧ (∀ g ∈ post, ∃ s, parseTime g = some s ∧ s ≤ T)
+
+theorem foldl_keyStep_none : ∀ xs : List (List Nat), xs.foldl keyStep none = none
+  | [] => rfl
+  | _ :: xs => by simpa [List.foldl_cons, keyStep] using foldl_keyStep_none xs
+
+theorem foldl_keyStep_firstMax : ∀ (xs seen : List (List Nat)) (f : List Nat) (T : Nat), FirstMax seen f T →
+    (∀ g ∈ xs, ∃ s, parseTime g = some s) →
+    ∃ f' T', xs.foldl keyStep (some (f, T)) = some (f', T') ∧ FirstMax (seen ++ xs) f' T'
+  | [], seen, f, T, h, _ => ⟨f, T, rfl, by simpa using h⟩
+  | y :: xs, seen, f, T, h, hp => by
+    obtain ⟨ty, hy⟩ := hp y (by simp)
+    have hp' : ∀ g ∈ xs, ∃ s, parseTime g = some s := fun g hg => hp g (List.mem_cons_of_mem _ hg)
+    obtain ⟨pre, post, hs, hf, hpre, hpost⟩ := h
+    have hcat : seen ++ y :: xs = (seen ++ [y]) ++ xs := by simp
+    by_cases hlt : T < ty
+    · have hstep : keyStep (some (f, T)) y = some (y, ty) := by simp [keyStep, hy, hlt]
+      have hinv : FirstMax (seen ++ [y]) y ty := by
+        refine ⟨seen, [], rfl, hy, ?_, by simp⟩
+        intro g hg
+        rw [hs] at hg
+        rcases List.mem_append.1 hg with hg | hg
+        · obtain ⟨s, e, hl⟩ := hpre g hg; exact ⟨s, e, by omega⟩
+        · rcases List.mem_cons.1 hg with rfl | hg
+          · exact ⟨T, hf, hlt⟩
+          · obtain ⟨s, e, hl⟩ := hpost g hg; exact ⟨s, e, by omega⟩
+      rw [List.foldl_cons, hstep, hcat]
+      exact foldl_keyStep_firstMax xs _ y ty hinv hp'
+    · have hstep : keyStep (some (f, T)) y = some (f, T) := by simp [keyStep, hy, hlt]
+      have hinv : FirstMax (seen ++ [y]) f T := by
+        refine ⟨pre, post ++ [y], by simp [hs], hf, hpre, ?_⟩
+        intro g hg
+        rcases List.mem_append.1 hg with hg | hg
+        · exact hpost g hg
+        · have : g = y := by simpa using hg
+          subst this; exact ⟨ty, hy, by omega⟩
+      rw [List.foldl_cons, hstep, hcat]
+      exact foldl_keyStep_firstMax xs _ f T hinv hp'
+
+/-- if every name parses, the repaired selection returns the first name of maximal time, and that time -/
+theorem latestWithTime_firstMax (files : List (List Nat)) (hne : files ≠ [])
+    (hp : ∀ g ∈ files, ∃ s, parseTime g = some s) :
+    ∃ f T, latestWithTime files = some (f, T) ∧ FirstMax files f T := by
+  cases files with
+  | nil => exact absurd rfl hne
+  | cons x xs =>
+    obtain ⟨tx, hx⟩ := hp x (by simp)
+    have h0 : FirstMax [x] x tx := ⟨[], [], rfl, hx, by simp, by simp⟩
+    obtain ⟨f, T, h1, h2⟩ := foldl_keyStep_firstMax xs [x] x tx h0 (fun g hg => hp g (List.mem_cons_of_mem _ hg))
+    exact ⟨f, T, by simpa [latestWithTime, hx] using h1, by simpa using h2⟩
+
+/-- one unparsable name makes the selection fail (`int` raises inside `max`) -/
+theorem foldl_keyStep_unparsable : ∀ (xs : List (List Nat)) (acc : Option (List Nat × Nat)),
+    (∃ g ∈ xs, parseTime g = none) → xs.foldl keyStep acc = none
+  | [], _, h => by obtain ⟨g, hg, _⟩ := h; simp at hg
+  | y :: xs, acc, h => by
+    rw [List.foldl_cons]
+    by_cases hy : parseTime y = none
+    · have : keyStep acc y = none := by
+        unfold keyStep; rw [hy]; cases acc <;> rfl
+      rw [this]; exact foldl_keyStep_none xs
+    · obtain ⟨g, hg, hn⟩ := h
+      rcases List.mem_cons.1 hg with rfl | hg
+      · exact absurd hn hy
+      · exact foldl_keyStep_unparsable xs _ ⟨g, hg, hn⟩
+
 /-! ### the time loop: iteration -/
 
 /-- `n` unconditional executions of the loop body -/
